@@ -451,7 +451,8 @@ def run(ctx, scratch):
                         activations=rng.choice(['ReLu', 'Sigmoid', 'Identity']), normalizations=rng.choice(NORMS),
                         self_embeddings=rng.random() < 0.5, sample_sizes=rng.randint(1, 3), loss=loss,
                         optimizer=rng.choice(['Adam', 'GD']), early_stopping=early, patience=rng.randint(1, 3),
-                        validation=(0.3 if early and rng.random() < 0.7 else 0), n_epochs=rng.randint(1, 5),
+                        validation=(0.3 if early and len(lab_nodes) >= 4 and rng.random() < 0.7 else 0),
+                        n_epochs=rng.randint(1, 5),
                         random_state=rng.randrange(1000), labels=labels)
             r = impl.call('c19', 'classifier', args, timeout=60)
             ctx.traces += 1
@@ -462,6 +463,10 @@ def run(ctx, scratch):
             ctx.count('classifier:%s:%s:%s:%s' % (eff_loss, chan, args['layer_types'], args['optimizer']),
                       ('clf', coo, X, args['dims'], args['labels'], args['random_state'], args['layer_types'],
                        args['optimizer'], args['normalizations']), len(coo) > 0)
+            if 'err' in r and args['validation'] and 'No sample with both true' in r.get('msg', ''):
+                # the random validation split left no training node: a degenerate draw, not a valid configuration
+                ctx.margin_dropped += 1
+                continue
             if 'ok' not in r:
                 ctx.violation('GNNClassifier.fit', 'fit raised / crashed on a valid configuration', case=args,
                               expected='a fitted classifier', observed=r, **fields)
